@@ -56,7 +56,7 @@ ASSUMPTIONS = [
     "`names` and `pipelines` have no single-value form (class docstrings and the repository's own tests require "
     "TypeError / per-observer lists); BolometerCamera documents list-only foil_detectors assignment",
 ]
-QUICK = dict(cases=3000, workers=2, timecap=30)
+QUICK = dict(cases=3000, workers=2, timecap=25)
 THOROUGH = dict(cases=300000, workers=16, timecap=300)
 REQUIRED = {"registry": 7, "assign_scalar": 300, "assign_seq": 1200, "wronglen": 3000, "getter": 10000,
             "snapshot_members": 20000, "lookup_index": 500, "lookup_slice": 800, "lookup_name": 300, "invariant": 5000,
@@ -1205,8 +1205,6 @@ def op_registry(env, ctx):
         if p.fset is None:
             ctx.viol("no-setter:%s.%s" % (cn, a),
                      "group attribute %s.%s has a getter but no setter: assigning to it raises AttributeError" % (cn, a))
-        elif p.fget is not None and p.fget.__name__ != p.fset.__name__ and not getattr(p.fset, "_c15_wrapped", False):
-            pass
     # the structural member property must exist
     need = "foil_detectors" if cn == CAMERA else "observers"
     if need not in props:
